@@ -54,6 +54,7 @@ var guardTable = []guardSpec{
 	{"icmp_spoofer", "Handler6", "huntList", []string{"Handler6.Mutex"}, []string{"Handler6.Mutex"}, "hunt list"},
 	{"icmp_spoofer", "Handler6", "LANRouters", []string{"Handler6.Mutex"}, []string{"Handler6.Mutex"}, "router table"},
 	{"icmp_spoofer", "Handler6", "Router", []string{"Handler6.Mutex"}, []string{"Handler6.Mutex"}, "default router"},
+	{"icmp_spoofer", "Router", "*", []string{"Handler6.Mutex"}, []string{"Handler6.Mutex"}, "router entries are updated by ProcessPacket on every RA"},
 	{"icmp_spoofer", "Handler6", "closeChan", []string{"Handler6.Mutex"}, []string{"Handler6.Mutex"}, "replaced on every RA"},
 	{"icmp_spoofer", "Handler6", "closed", []string{"Handler6.Mutex"}, []string{"Handler6.Mutex"}, "written by Close, read by loops"},
 	{"dhcp4_spoofer", "Handler", "table", []string{"Handler.Mutex"}, []string{"Handler.Mutex"}, "lease table"},
@@ -294,8 +295,25 @@ func runC09(c *Ctx) {
 				continue
 			}
 			accs := accessesOf(fn, match)
+			if g.field == "*" {
+				// entries of a guarded table: only pointers obtained in this function from a lookup / range of a map
+				// (the guarded table) are in scope; pointers kept elsewhere are a different question
+				var kept []fieldAccess
+				for _, ac := range accs {
+					if ac.fa != nil && fromMapLookup(ac.fa.X, 0) {
+						kept = append(kept, ac)
+					}
+				}
+				accs = kept
+			}
 			// whole-struct loads/stores through a pointer (copying the guarded object)
 			core.EachInstr(fn, func(i ssa.Instruction) {
+				if u, ok := i.(*ssa.UnOp); ok && g.field == "*" && !fromMapLookup(u.X, 0) {
+					return
+				}
+				if st, ok := i.(*ssa.Store); ok && g.field == "*" && !fromMapLookup(st.Addr, 0) {
+					return
+				}
 				switch t := i.(type) {
 				case *ssa.UnOp:
 					if t.Op == token.MUL && matchWhole(t.X.Type()) {
@@ -406,7 +424,9 @@ func isDiagnostic(fn *ssa.Function) bool {
 		n = fn.Parent().Name()
 	}
 	switch {
-	case n == "FastLog" || n == "String" || n == "Log" || strings.HasPrefix(n, "print") || strings.HasPrefix(n, "Print"):
+	case n == "FastLog" || n == "String" || n == "Log" || strings.HasPrefix(n, "print"):
+		// renderers called with the lock already held by their caller, and unexported print helpers;
+		// the exported PrintTable methods are API and are checked like any other reader
 		return true
 	}
 	return false
@@ -516,6 +536,41 @@ func mentionsField(v ssa.Value, names ...string) bool {
 			return false
 		default:
 			return false
+		}
+	}
+	return false
+}
+
+// fromMapLookup: the pointer was read from a map (lookup, comma-ok lookup or range) in this function.
+func fromMapLookup(v ssa.Value, depth int) bool {
+	if depth > 6 {
+		return false
+	}
+	switch t := v.(type) {
+	case *ssa.Lookup:
+		_, isMap := t.X.Type().Underlying().(*types.Map)
+		return isMap
+	case *ssa.Extract:
+		switch tt := t.Tuple.(type) {
+		case *ssa.Lookup:
+			return fromMapLookup(tt, depth+1)
+		case *ssa.Next:
+			return !tt.IsString
+		}
+	case *ssa.Phi:
+		for _, e := range t.Edges {
+			if fromMapLookup(e, depth+1) {
+				return true
+			}
+		}
+	case *ssa.UnOp:
+		// a local variable holding the looked-up pointer
+		if al, ok := t.X.(*ssa.Alloc); ok && al.Referrers() != nil {
+			for _, r := range *al.Referrers() {
+				if st, ok := r.(*ssa.Store); ok && st.Addr == ssa.Value(al) && fromMapLookup(st.Val, depth+1) {
+					return true
+				}
+			}
 		}
 	}
 	return false
